@@ -18,8 +18,14 @@ fn sample_scenarios() -> Vec<Scenario> {
     let mut v = vec![];
     let c12 = props::by_id("C12").unwrap();
     let spec = (c12.enumerate.unwrap())(Tier::Quick, false);
-    for i in (0..spec.n).step_by(7).take(12) {
-        v.push((spec.make)(i));
+    for i in (0..spec.n).step_by(7) {
+        let scn = (spec.make)(i);
+        if deterministic(&scn) {
+            v.push(scn);
+        }
+        if v.len() == 12 {
+            break;
+        }
     }
     let mut config = Config::default();
     config.rng_seed = RngSeed::Fixed(0xD1FF);
@@ -48,9 +54,7 @@ fn sample_scenarios() -> Vec<Scenario> {
             if scn.stores.len() != 1 {
                 continue;
             }
-            // a client thread ending a subscription races the reducer thread's notifications
-            // (an unsubscribe issued from inside a callback does not)
-            if scn.threads.iter().flatten().any(|o| matches!(o, Op::Unsubscribe { .. })) {
+            if !deterministic(&scn) {
                 continue;
             }
             taken += 1;
@@ -58,6 +62,13 @@ fn sample_scenarios() -> Vec<Scenario> {
         }
     }
     v
+}
+
+/// A client thread that registers or ends a subscription races the reducer thread's
+/// notifications even when it is the only client thread (the same call issued from inside a
+/// callback does not): such scenarios have no schedule-independent event sequence.
+fn deterministic(scn: &Scenario) -> bool {
+    !scn.threads.iter().flatten().any(|o| matches!(o, Op::Unsubscribe { .. } | Op::Subscribe { .. }))
 }
 
 /// The projection both flavours must agree on.
